@@ -6,6 +6,11 @@ BASE = "cd /repo && go test -mod=mod -json -vet=off -count=1 -timeout 25m ./..."
 
 CLAIMED = {
  # id: (category, text, design_ref, level_note, technique)
+ "C14": ("other",
+  "Structural necessary conditions of purity and causality, decided over every module function reachable (VTA call graph) from any wrapper method and over every kernel: no write of a package-level variable and no read of one that is written outside package initialisation; model struct fields are assigned only by ApplyParameters/InitialiseDimensions; no call of time.Now/rand/os.Getenv/file reads and no map iteration; in every kernel each read of an input series and each write of an output series inside the time loop uses the loop's own induction variable as time index (through the reaching store of the one-element index vector), inputs are read outside the loop only at index 0, no whole-series reduction of an input. Together these are sufficient for 'outputs up to t do not depend on inputs after t' given Get/Set semantics (C01). Bit-identity as such is not executed or compared.",
+  "DESIGN.md section 2, C14",
+  "One symbol-wide exception (routing.lag reads i-lagSteps). Stdlib internals (fmt, math) are not inspected. Rejected rule: 'every output written on every path' (early returns leave zero-initialised outputs, which the property's quantifier makes correct).",
+  "call-graph reachability + global/field store scan + reaching-store evaluation of time indices on go/ssa"),
  "C13": ("other",
   "Decides the bookkeeping structure of the adaptive sub-stepping for every path through it: each accumulator weighted by the sub-step length that reaches an output executes control-equivalently with the subtraction of that sub-step from the remaining time (once per accepted sub-step, never in the trial loop) - exactly the clause the property's why_tests_cant names, and it found the rainfall/evaporation accounting defect, now fixed; the increments of the reported totals are, as symbolic monomials, terms of the volume update (R13.4), so the reported volumes are the ones that changed the volume, in the same units; final level and area are the capped table lookups of the very value returned as volume; contributions to the outflow other than the release term are conditional on volume > volumes[nLVA-1]. The min/max release bounds and numerical closure are NOT decided.",
   "DESIGN.md section 2, C13",
